@@ -140,6 +140,14 @@ func c15handler(c *Ctx) {
 		lgL := slog.New(name)
 		lg := lgL.Root()
 		lg.SetWriter(w).SetErrorWriter(w)
+		if r.P(15) {
+			// per-level writers that the application added to the underlying logger and removed again
+			for _, lv := range []slog.Level{slog.DebugLevel, slog.InfoLevel, slog.WarnLevel, slog.ErrorLevel} {
+				lg.AddLevelWriter(lv, decoy)
+				lg.RemoveLevelWriter(lv, decoy)
+			}
+			c.R.Add("underlying_loggers_whose_level_writers_were_added_and_removed", 1)
+		}
 		opt := &slog.HandlerOptions{NoColor: r.Bool(), NoSource: r.Bool(), JSON: r.Bool(), Level: gen.Pick(r, []slog.Level{slog.PanicLevel /* = leave */, slog.ErrorLevel, slog.WarnLevel, slog.InfoLevel, slog.DebugLevel, slog.TraceLevel})}
 		preLevel := gen.Pick(r, []slog.Level{slog.ErrorLevel, slog.WarnLevel, slog.InfoLevel, slog.DebugLevel, slog.AlwaysLevel})
 		lg.SetLevel(preLevel)
@@ -575,6 +583,12 @@ func c15bridge(c *Ctx) {
 		lgL := slog.New("bridge")
 		lg := lgL.Root()
 		lg.SetWriter(w).SetErrorWriter(w)
+		if r.P(15) {
+			gone := mon.New(log, "GONE", mon.ShapePlain)
+			lg.AddLevelWriter(sev, gone)
+			lg.RemoveLevelWriter(sev, gone)
+			c.R.Add("underlying_loggers_whose_level_writers_were_added_and_removed", 1)
+		}
 		setFormat(lg, f)
 		debugMode := r.P(30) // the sticky process-wide debug mode additionally admits Debug
 		var under slog.Logger = lgL
